@@ -60,12 +60,23 @@ Section ScanMap.
 End ScanMap.
 
 (* ---------- prediction as coded in encodeScan / decodeScan / optimizeHuffmanTables ------ *)
-(* dflt = 1 << (precision-1) *)
+(* edgeAwarePrediction (predictors.go): the T.81 H.1.2.1 first-line / first-column rules *)
+Definition edge_aware (pred : Z) (row0 col0 : bool) (ra rb rc dflt : Z) : Z :=
+  if row0 && col0 then dflt
+  else if row0 then ra
+  else if col0 then rb
+  else predictor pred ra rb rc.
+(* dflt = 1 << (precision-1); ra, rb, rc as selected in encodeScan / decodeScan /
+   optimizeHuffmanTables: the default value where the neighbour does not exist.
+   History (findings F08/F09, fixed in /repo): until commit 571863c the code used
+   Predictor(p, ra, rb, rc) with these defaults for every sample but the first (and Ra := the
+   sample above for predictor 1 in column 0), which is not H.1.2.1 for predictors 2,3,5,6,7
+   (smallest witness: 2x1 image {0,0}, P = 8, predictor 2: 128 predicted for the 2nd sample). *)
 Definition ll_pred (pred dflt : Z) (row0 col0 : bool) (left above aleft : Z) : Z :=
-  let ra := if col0 then (if negb row0 && (pred =? 1) then above else dflt) else left in
+  let ra := if col0 then dflt else left in
   let rb := if row0 then dflt else above in
   let rc := if row0 || col0 then dflt else aleft in
-  if col0 && row0 then dflt else predictor pred ra rb rc.
+  edge_aware pred row0 col0 ra rb rc dflt.
 (* lossless14sv1: first pixel 2^(P-1), first column the pixel above, otherwise the left one *)
 Definition sv1_pred (dflt : Z) (row0 col0 : bool) (left above aleft : Z) : Z :=
   if col0 then (if row0 then dflt else above) else left.
@@ -213,17 +224,23 @@ Definition is_rst (m : Z) : bool := (65488 <=? m) && (m <=? 65495).   (* FFD0..F
 Definition has_length (m : Z) : bool := negb ((m =? M_SOI) || (m =? M_EOI) || is_rst m).
 
 (* ---------- sample reconstruction, shared by both decoders ---------- *)
-(* Decode category, receive the difference, add the prediction, wrap ONCE by 2^P *)
+(* jpeg/lossless: sample := (predicted + diff) & 0xFFFF  (modulo 2^16, T.81 H.1.2.1).
+   History (finding F08, fixed in /repo by commit 26af654): the decoder used to wrap once by
+   2^P like the SV1 decoder below, which is wrong for predictors 4,5,6 at P = 15
+   (witness: P = 15, predictor 4, 2x2 image {0,32767,32767,0} decoded its last sample as 32768). *)
+Definition recon16 (px diff : Z) : Z := Z.land (px + diff) 65535.
+(* jpeg/lossless14sv1: add the prediction and wrap ONCE by modulus = 2^P *)
 Definition recon (modulus px diff : Z) : Z :=
   let s := px + diff in
   if s <? 0 then s + modulus else if modulus <=? s then s - modulus else s.
-Definition dec_sample (t : htable) (modulus px : Z) (st : rstate) : option (Z * rstate) :=
+(* Decode the category, receive the difference, reconstruct with [rec] *)
+Definition dec_sample (t : htable) (rec : Z -> Z -> Z) (px : Z) (st : rstate) : option (Z * rstate) :=
   match huff_decode t st with
   | None => None
   | Some (cat, st1) =>
     match (if 0 <? cat then receive_lossless st1 cat else Some (0, st1)) with
     | None => None
-    | Some (diff, st2) => Some (recon modulus px diff, st2)
+    | Some (diff, st2) => Some (rec px diff, st2)
     end
   end.
 
@@ -232,13 +249,13 @@ Section DecScan.
      (Ok table / Err: nil table / Panic: selector outside the array), evaluated when the
      component's sample is decoded, as in the Go loops *)
   Variable predf : bool -> bool -> Z -> Z -> Z -> Z.
-  Variable modulus : Z.
+  Variable rec : Z -> Z -> Z.
   Fixpoint dec_px (tabs : list (outcome htable)) (row0 col0 : bool) (l a al : list Z)
            (st : rstate) : outcome (list Z * rstate) :=
     match tabs, l, a, al with
     | t :: tabs', l0 :: l', a0 :: a', al0 :: al' =>
       obind t (fun tb =>
-        match dec_sample tb modulus (predf row0 col0 l0 a0 al0) st with
+        match dec_sample tb rec (predf row0 col0 l0 a0 al0) st with
         | None => Err
         | Some (s, st1) =>
           obind (dec_px tabs' row0 col0 l' a' al' st1) (fun r => Ok (s :: fst r, snd r))
@@ -279,9 +296,10 @@ Definition rows_to_pixels (P : Z) (rows : list (list (list Z))) : list Z :=
 Definition dec_result : Type := list Z * Z * Z * Z * Z.   (* pixels, width, height, comps, P *)
 
 (* ---------- Decode (jpeg/lossless) ---------- *)
+(* dcTables [4], dcTableSelectors [3] *)
 Record dstate := mkD { d_w : Z; d_h : Z; d_comps : Z; d_P : Z; d_pred : Z;
-                       d_t0 : option htable; d_t1 : option htable; d_sels : list Z }.
-Definition d_init : dstate := mkD 0 0 0 0 0 None None [0; 0; 0].
+                       d_tabs : list (option htable); d_sels : list Z }.
+Definition d_init : dstate := mkD 0 0 0 0 0 [None; None; None; None] [0; 0; 0].
 
 Definition ll_parse_sof3 (data : list Z) (st : dstate) : outcome dstate :=
   if zlen data <? 6 then Err
@@ -294,7 +312,7 @@ Definition ll_parse_sof3 (data : list Z) (st : dstate) : outcome dstate :=
       let comps := znth data 5 0 in
       if (w <=? 0) || (h <=? 0) then Err
       else if negb ((comps =? 1) || (comps =? 3)) then Err
-      else Ok (mkD w h comps P (d_pred st) (d_t0 st) (d_t1 st) (d_sels st)).
+      else Ok (mkD w h comps P (d_pred st) (d_tabs st) (d_sels st)).
 
 Fixpoint ll_parse_dht (fuel : nat) (data : list Z) (st : dstate) : outcome dstate :=
   match data with
@@ -305,7 +323,7 @@ Fixpoint ll_parse_dht (fuel : nat) (data : list Z) (st : dstate) : outcome dstat
     | S f =>
       let tc := Z.land (Z.shiftr tcth 4) 15 in
       let th := Z.land tcth 15 in
-      if 2 <=? th then Err
+      if 4 <=? th then Err
       else if (length rest <? 16)%nat then Err
       else
         let bits := firstn 16 rest in
@@ -315,10 +333,9 @@ Fixpoint ll_parse_dht (fuel : nat) (data : list Z) (st : dstate) : outcome dstat
         else
           let vals := firstn (Z.to_nat total) rest1 in
           obind (build_table bits vals) (fun t =>
-            let st' := if tc =? 0 then
-                         (if th =? 0
-                          then mkD (d_w st) (d_h st) (d_comps st) (d_P st) (d_pred st) (Some t) (d_t1 st) (d_sels st)
-                          else mkD (d_w st) (d_h st) (d_comps st) (d_P st) (d_pred st) (d_t0 st) (Some t) (d_sels st))
+            let st' := if tc =? 0
+                       then mkD (d_w st) (d_h st) (d_comps st) (d_P st) (d_pred st)
+                                (zupd (d_tabs st) th (Some t)) (d_sels st)
                        else st in
             ll_parse_dht f (skipn (Z.to_nat total) rest1) st')
     end
@@ -329,7 +346,7 @@ Fixpoint ll_selectors (k : nat) (comp : Z) (data : list Z) (sels : list Z) : out
   | O => Ok sels
   | S k' =>
     let sel := Z.shiftr (znth data (2 + comp * 2) 0) 4 in
-    if 2 <=? sel then Err else ll_selectors k' (comp + 1) data (zupd sels comp sel)
+    if 4 <=? sel then Err else ll_selectors k' (comp + 1) data (zupd sels comp sel)
   end.
 Definition ll_parse_sos (data : list Z) (st : dstate) : outcome dstate :=
   let comps := d_comps st in
@@ -339,7 +356,7 @@ Definition ll_parse_sos (data : list Z) (st : dstate) : outcome dstate :=
     let pred := znth data (1 + comps * 2) 0 in
     if (pred <? 1) || (7 <? pred) then Err
     else obind (ll_selectors (Z.to_nat comps) 0 data (d_sels st)) (fun sels =>
-           Ok (mkD (d_w st) (d_h st) comps (d_P st) pred (d_t0 st) (d_t1 st) sels)).
+           Ok (mkD (d_w st) (d_h st) comps (d_P st) pred (d_tabs st) sels)).
 
 (* decodeScan: scan bytes up to (excluding) the first FF xx with xx <> 0; FF at EOF kept *)
 Fixpoint ll_extract_scan (l : list Z) : list Z :=
@@ -357,12 +374,12 @@ Fixpoint ll_extract_scan (l : list Z) : list Z :=
 Definition opt_table (o : option htable) : outcome htable :=
   match o with Some t => Ok t | None => Err end.
 Definition ll_tabs (st : dstate) : list (outcome htable) :=
-  map (fun sel => if sel =? 0 then opt_table (d_t0 st) else opt_table (d_t1 st))
+  map (fun sel => opt_table (znth (d_tabs st) sel None))
       (firstn (Z.to_nat (d_comps st)) (d_sels st)).
 
 Definition ll_decode_scan (st : dstate) (l : list Z) : outcome dec_result :=
   let P := d_P st in
-  obind (dec_image (ll_pred (d_pred st) (2 ^ (P - 1))) (2 ^ P) (d_w st) (d_h st) (ll_tabs st)
+  obind (dec_image (ll_pred (d_pred st) (2 ^ (P - 1))) recon16 (d_w st) (d_h st) (ll_tabs st)
                    (ll_extract_scan l))
         (fun rows => Ok (rows_to_pixels P rows, d_w st, d_h st, d_comps st, P)).
 
@@ -447,7 +464,7 @@ Fixpoint sv1_parse_dht (fuel : nat) (data : list Z) (st : sstate) : outcome ssta
     end
   end.
 
-(* comp.dcTableSelector = int(td) on the first component whose ID is cs *)
+(* comp.dcTableSelector = selector on the first component whose ID is cs *)
 Fixpoint sv1_set_sel (cs td : Z) (comps : list (Z * Z)) : option (list (Z * Z)) :=
   match comps with
   | [] => None
@@ -463,9 +480,13 @@ Fixpoint sv1_sos_comps (k : nat) (i : Z) (data : list Z) (comps : list (Z * Z))
   match k with
   | O => Ok comps
   | S k' =>
-    match sv1_set_sel (znth data (1 + i * 2) 0) (znth data (1 + i * 2 + 1) 0) comps with
+    (* selector := int(td >> 4); >= len(dcTables) -> ErrInvalidSOS (after the component
+       lookup).  History (finding F11, fixed by commit c78645a): the whole Td|Ta byte was
+       stored, so Td = 1 indexed dcTables[16] and panicked. *)
+    let sel := Z.shiftr (znth data (1 + i * 2 + 1) 0) 4 in
+    match sv1_set_sel (znth data (1 + i * 2) 0) sel comps with
     | None => Err
-    | Some comps' => sv1_sos_comps k' (i + 1) data comps'
+    | Some comps' => if 4 <=? sel then Err else sv1_sos_comps k' (i + 1) data comps'
     end
   end.
 Definition sv1_parse_sos (data : list Z) (st : sstate) : outcome sstate :=
@@ -494,7 +515,8 @@ Fixpoint sv1_extract_scan (l : list Z) : list Z :=
     else b :: sv1_extract_scan l'
   end.
 
-(* d.dcTables[comp.dcTableSelector] : selector >= 4 is an index-out-of-range panic *)
+(* d.dcTables[comp.dcTableSelector] : a selector >= 4 would be an index-out-of-range panic
+   (parseSOS now rejects it) *)
 Definition sv1_tab (tabs : list (option htable)) (sel : Z) : outcome htable :=
   if 4 <=? sel then Panic else opt_table (znth tabs sel None).
 
@@ -503,7 +525,7 @@ Definition sv1_pixels (st : sstate) (rows : list (list (list Z))) : dec_result :
 
 Definition sv1_decode_scan (st : sstate) (l : list Z) : outcome dec_result :=
   let P := s_P st in
-  obind (dec_image (sv1_pred (2 ^ (P - 1))) (2 ^ P) (s_w st) (s_h st)
+  obind (dec_image (sv1_pred (2 ^ (P - 1))) (recon (2 ^ P)) (s_w st) (s_h st)
                    (map (fun c => sv1_tab (s_tabs st) (snd c)) (s_comps st))
                    (sv1_extract_scan l))
         (fun rows => Ok (sv1_pixels st rows)).
